@@ -349,6 +349,26 @@ pub async fn http_connect(authority: &str) -> Result<(TcpStream, String), String
     Ok((s, line))
 }
 
+/// A plain (non-CONNECT) request through the HTTP proxy: origin-form or absolute-form target, optional
+/// header lines that merely look like a Host header placed before the real one. The simulated target
+/// echoes, so the forwarded request comes back; only the dialled destination is judged by the caller.
+pub async fn http_plain(authority: &str, absolute: bool, decoys: &[String]) -> Result<TcpStream, String> {
+    let mut s = TcpStream::connect(HTTP_ADDR).await.map_err(|e| format!("connect to the HTTP listener: {}", e))?;
+    let target = if absolute { format!("http://{}/index.html", authority) } else { "/index.html".to_string() };
+    let mut req = format!("GET {} HTTP/1.1\r\n", target);
+    for d in decoys {
+        req.push_str(d);
+        req.push_str("\r\n");
+    }
+    req.push_str(&format!("Host: {}\r\nAccept: */*\r\n\r\n", authority));
+    s.write_all(req.as_bytes()).await.map_err(|e| e.to_string())?;
+    let mut b = [0u8; 16];
+    match timeout(Duration::from_secs(120), s.read(&mut b)).await {
+        Ok(Ok(n)) if n > 0 => Ok(s),
+        _ => Err("nothing came back through the HTTP proxy".into()),
+    }
+}
+
 /// echo round trip through an established tunnel
 pub async fn ping(s: &mut TcpStream, payload: &[u8]) -> bool {
     if s.write_all(payload).await.is_err() {
